@@ -48,6 +48,11 @@ class CsgScatterer(Scatterer):
             raise InvalidScatterer(self, "Components of a CSG scatterer must not have different indicies")
 
     @property
+    def num_domains(self):
+        # both components have a single domain and the same index
+        return 1
+
+    @property
     def bounds(self):
         return [(min(b1[0], b2[0]), max(b1[1], b2[1])) for b1, b2 in zip(self.s1.bounds, self.s2.bounds)]
 
